@@ -69,6 +69,7 @@ func runC15(c *Ctx) {
 	c.rule("errors-propagate", "every error returned to the parse package by strconv / the scanner / Unquote / a callback is tested and leads to a non-nil error result (no path returns a value together with a swallowed error)", 15)
 	c.rule("syntax-agree", "writers (flag helpers' String) quote with strconv.Quote and separate with ',' (and ':' for maps); readers unquote with strconv.Unquote and split on the same runes; unsigned slices are formatted with FormatUint and parsed with ParseUint, signed ones with FormatInt/ParseInt, base 10 out / base 0 in", 8)
 	c.rule("empty-forms", "the empty string is a legitimate map key (the splitter never tests the key text against \"\" to decide whether a key was read) and the empty text is the canonical form of an empty collection (strings.Split-based parsers answer it with an empty result)", 3)
+	c.rule("typed-registration", "(shared with C12) the pflag source registers every numeric leaf with the flag type of its own width (it has no overflow helper: a wider flag type wraps out-of-range input in the later Convert)", 1)
 	c.rule("quoted-through-unquote", "in both splitters the text of a quoted literal reaches the result only as strconv.Unquote of the token text; the raw token text is used only for tokens that are not quoted literals", 4)
 	c.rule("single-token-per-part", "in the map splitter a token's text is stored into the key (value) state only while that part's already-read flag is false, and the store sets the flag: a second token for the same part is an error, never a silent replacement (an unparsable value is an error rather than a truncated one)", 2)
 	c.rule("error-not-value", "(shared with C12) when the flag source detects an out-of-range or unconvertible flag value its Value returns the error and not a config", 1)
@@ -84,6 +85,7 @@ func runC15(c *Ctx) {
 	c15PairStateReset(c, "pair-state-reset")
 	c15SingleTokenPerPart(c, "single-token-per-part")
 	c15QuotedThroughUnquote(c, "quoted-through-unquote")
+	c12PflagTypedRegistration(c)
 	c15EmptyForms(c, "empty-forms")
 
 	// ---- parse-args ------------------------------------------------------------------
